@@ -37,6 +37,10 @@ __tok_spec(const char *fp, const char **ep)
 	xt_calls++;
 	r = c10_real_tok_spec(fp, &e);
 	xt_ep = e;
+	if (xt_fmt_lo == NULL ? !xa_inside(fp) : (fp >= xt_fmt_lo && fp < xt_fmt_hi)) {
+		xt_in_fp = fp;
+		xt_in_ep = e;
+	}
 	if (ep != NULL) {
 		*ep = e;
 	}
@@ -232,6 +236,39 @@ do_durparse(int func, const char *inp, struct pres *r)
 	return rc;
 }
 
+/* how the format enters a key when no specifier is to blame: NULL, a calendar name, or nothing */
+static const char*
+fmt_class(const char *fmt, size_t flen, char *buf, size_t bsz)
+{
+	if (fmt == NULL) {
+		return " [format NULL]";
+	}
+	if (flen && fmt[0] != '%') {
+		for (size_t i = 0; i < NNAMED; i++) {
+			if (!strcasecmp(fmt, named_fmt[i]) && strcmp(named_fmt[i], "x")) {
+				snprintf(buf, bsz, " [format \"%s\"]", named_fmt[i]);
+				return buf;
+			}
+		}
+	}
+	return "";
+}
+static const char*
+sig_where(char *buf, size_t bsz)
+{
+	/* the function that was executing, except for abort() whose pc is inside libc */
+	char site[48], tok[32];
+	xt_label_last(tok, sizeof(tok));
+	if (xr_sig == SIGALRM) {
+		snprintf(buf, bsz, "%s, last specifier %s", xg_signame(xr_sig), tok);
+	} else if (xr_sig == SIGABRT) {
+		snprintf(buf, bsz, "%s, last specifier %s", xg_signame(xr_sig), tok);
+	} else {
+		snprintf(buf, bsz, "%s in %s, last specifier %s", xg_signame(xr_sig), xs_name(xr_sig_pc, site, sizeof(site)), tok);
+	}
+	return buf;
+}
+
 static int replay_verbose;
 static int replay_fails;
 
@@ -288,17 +325,16 @@ parse_case(int func, const char *fmt, size_t flen, const char *inp, size_t ilen,
 	pi = xa_place(&xa_inp, inp, ilen + 1);
 	xt_fmt_lo = pf;
 	xt_fmt_hi = pf ? pf + flen + 1 : NULL;
-	xt_fp = xt_ep = NULL;
+	xt_fp = xt_ep = xt_in_fp = xt_in_ep = NULL;
 	xr.n = 0;
 	xr.total = 0;
 	rc = do_parse(func, pf, pi, &a);
 	++*c_eval;
 	if (rc) {
-		char site[48];
-		xs_name(xr_sig_pc, site, sizeof(site));
-		snprintf(key, sizeof(key), "%s: %s%s%s", fn, xg_signame(xr_sig), xr_sig != SIGALRM ? " in " : "", xr_sig != SIGALRM ? site : "");
-		report(key, ord, cas, *cmd ? cmd : NULL, "%s(\"%s\", %s%s%s): %s", fn, ie, fmt ? "\"" : "", fe, fmt ? "\"" : "", xg_signame(xr_sig));
-		return 1;
+		char sw[128], fc[48];
+		snprintf(key, sizeof(key), "%s: %s%s", fn, sig_where(sw, sizeof(sw)), fmt_class(fmt, flen, fc, sizeof(fc)));
+		report(key, ord, cas, *cmd ? cmd : NULL, "%s(\"%s\", %s%s%s): %s", fn, ie, fmt ? "\"" : "", fe, fmt ? "\"" : "", sw);
+		return xg_must_restart();
 	}
 	for (int i = 0; i < xr.n; i++) {
 		snprintf(key, sizeof(key), "%s%s: %s in %s, specifier %s", fn, fmt ? "" : " (no format)", xr.r[i].kind, xr.r[i].site,
@@ -326,16 +362,25 @@ parse_case(int func, const char *fmt, size_t flen, const char *inp, size_t ilen,
 		int rcb, rcc;
 		pfb = fmt ? xa_place_fill(&xa_fmt, fmt, flen + 1, FILL_FMT_A, sizeof(FILL_FMT_A)) : NULL;
 		pib = xa_place_fill(&xa_inp, inp, ilen + 1, FILL_INP_A, sizeof(FILL_INP_A));
-		xt_fmt_lo = xt_fmt_hi = NULL;
+		char tok[32];
+		xt_fmt_lo = pfb;
+		xt_fmt_hi = pfb ? pfb + flen + 1 : NULL;
+		xt_fp = xt_ep = xt_in_fp = xt_in_ep = NULL;
 		rcb = do_parse(func, pfb, pib, &b);
-		pfb = fmt ? xa_place_fill(&xa_fmt, fmt, flen + 1, FILL_FMT_B, sizeof(FILL_FMT_B)) : NULL;
-		pib = xa_place_fill(&xa_inp, inp, ilen + 1, FILL_INP_B, sizeof(FILL_INP_B));
-		rcc = do_parse(func, pfb, pib, &c);
+		xt_label_last(tok, sizeof(tok));
+		if (!rcb) {
+			pfb = fmt ? xa_place_fill(&xa_fmt, fmt, flen + 1, FILL_FMT_B, sizeof(FILL_FMT_B)) : NULL;
+			pib = xa_place_fill(&xa_inp, inp, ilen + 1, FILL_INP_B, sizeof(FILL_INP_B));
+			rcc = do_parse(func, pfb, pib, &c);
+		} else {
+			rcc = 0;
+		}
 		*c_eval += 2;
 		if (rcb || rcc) {
-			snprintf(key, sizeof(key), "%s: %s (with bytes behind the terminators)", fn, xg_signame(xr_sig));
-			report(key, ord, cas, *cmd ? cmd : NULL, "%s(\"%s\", \"%s\") followed by fill bytes: %s", fn, ie, fe, xg_signame(xr_sig));
-			return 1;
+			char sw[128], fc[48];
+			snprintf(key, sizeof(key), "%s: %s%s (with bytes behind the terminators)", fn, sig_where(sw, sizeof(sw)), fmt_class(fmt, flen, fc, sizeof(fc)));
+			report(key, ord, cas, *cmd ? cmd : NULL, "%s(\"%s\", \"%s\") followed by fill bytes: %s", fn, ie, fe, sw);
+			return xg_must_restart();
 		}
 		if (memcmp(b.raw, c.raw, 16) || b.epoff != c.epoff) {
 			/* which terminator? format fill B with input fill A */
@@ -344,15 +389,15 @@ parse_case(int func, const char *fmt, size_t flen, const char *inp, size_t ilen,
 				pfb = xa_place_fill(&xa_fmt, fmt, flen + 1, FILL_FMT_B, sizeof(FILL_FMT_B));
 				pib = xa_place_fill(&xa_inp, inp, ilen + 1, FILL_INP_A, sizeof(FILL_INP_A));
 				if (do_parse(func, pfb, pib, &d)) {
-					return 1;
+					return xg_must_restart();
 				}
 				++*c_eval;
 				if (memcmp(b.raw, d.raw, 16) || b.epoff != d.epoff) {
 					whose = "format";
 				}
 			}
-			snprintf(key, sizeof(key), "%s%s: result depends on the bytes behind the terminator of the %s%s", fn, fmt ? "" : " (no format)",
-				 whose, (b.unk != c.unk) ? " (date or not)" : b.unk ? "" : " (which date)");
+			snprintf(key, sizeof(key), "%s%s: result depends on the bytes behind the terminator of the %s%s, last specifier %s", fn, fmt ? "" : " (no format)",
+				 whose, (b.unk != c.unk) ? " (date or not)" : b.unk ? "" : " (which date)", tok);
 			report(key, ord, cas, *cmd ? cmd : NULL,
 			       "%s(\"%s\", %s%s%s): with '%s...' behind the terminators the result is %s (end offset %ld), with other bytes %s (end offset %ld)",
 			       fn, ie, fmt ? "\"" : "", fe, fmt ? "\"" : "", whose[0] == 'f' ? "%Y-%m-%d" : "2012-03-04",
@@ -406,9 +451,10 @@ dur_case(int func, const char *inp, size_t ilen)
 	if (rc) {
 		char site[48];
 		xs_name(xr_sig_pc, site, sizeof(site));
-		snprintf(key, sizeof(key), "%s: %s%s%s", fn, xg_signame(xr_sig), xr_sig != SIGALRM ? " in " : "", xr_sig != SIGALRM ? site : "");
+		snprintf(key, sizeof(key), "%s: %s%s%s", fn, xg_signame(xr_sig), (xr_sig != SIGALRM && xr_sig != SIGABRT) ? " in " : "",
+			 (xr_sig != SIGALRM && xr_sig != SIGABRT) ? site : "");
 		report(key, (double)ilen, cas, *cmd ? cmd : NULL, "%s(\"%s\"): %s", fn, ie, xg_signame(xr_sig));
-		return 1;
+		return xg_must_restart();
 	}
 	for (int i = 0; i < xr.n; i++) {
 		snprintf(key, sizeof(key), "%s: %s in %s", fn, xr.r[i].kind, xr.r[i].site);
@@ -423,11 +469,11 @@ dur_case(int func, const char *inp, size_t ilen)
 	ex_outcome(ex_hash_mix(ex_hash(a.raw, 16), (uint64_t)(a.epoff * 4 + func + 8)));
 	pi = xa_place_fill(&xa_inp, inp, ilen + 1, FILL_INP_A, sizeof(FILL_INP_A));
 	if (do_durparse(func, pi, &b)) {
-		return 1;
+		return xg_must_restart();
 	}
 	pi = xa_place_fill(&xa_inp, inp, ilen + 1, FILL_INP_B, sizeof(FILL_INP_B));
 	if (do_durparse(func, pi, &c)) {
-		return 1;
+		return xg_must_restart();
 	}
 	*c_eval += 2;
 	if (memcmp(b.raw, c.raw, 16) || b.epoff != c.epoff) {
@@ -507,7 +553,7 @@ format_case(int func, const char *fmt, size_t flen, int vi, int bsz)
 	po = bsz >= 0 ? (char*)xa_out.p : NULL;
 	xt_fmt_lo = pf;
 	xt_fmt_hi = pf ? pf + flen + 1 : NULL;
-	xt_fp = xt_ep = NULL;
+	xt_fp = xt_ep = xt_in_fp = xt_in_ep = NULL;
 	xr.n = 0;
 	xr.total = 0;
 	XG_BEGIN(rc) {
@@ -534,11 +580,10 @@ format_case(int func, const char *fmt, size_t flen, int vi, int bsz)
 		}
 	}
 	if (rc) {
-		char site[48];
-		xs_name(xr_sig_pc, site, sizeof(site));
-		snprintf(key, sizeof(key), "%s: %s%s%s", fn, xg_signame(xr_sig), xr_sig != SIGALRM ? " in " : "", xr_sig != SIGALRM ? site : "");
-		report(key, (double)bsz, cas, *cmd ? cmd : NULL, "%s(buf, %d, \"%s\", %s): %s", fn, bsz, fe, value_name(func, vi), xg_signame(xr_sig));
-		return 1;
+		char sw[128], fc[48];
+		snprintf(key, sizeof(key), "%s: %s%s%s", fn, sig_where(sw, sizeof(sw)), fmt_class(fmt, flen, fc, sizeof(fc)), bsz < 0 ? " [buffer NULL]" : "");
+		report(key, (double)bsz, cas, *cmd ? cmd : NULL, "%s(%s, %d, \"%s\", %s): %s", fn, bsz < 0 ? "NULL" : "buf", bsz < 0 ? 16 : bsz, fe, value_name(func, vi), sw);
+		return xg_must_restart();
 	}
 	for (int i = 0; i < xr.n; i++) {
 		snprintf(key, sizeof(key), "%s: %s in %s, specifier %s", fn, xr.r[i].kind, xr.r[i].site, xr.r[i].tok[0] ? xr.r[i].tok : "-");
@@ -548,7 +593,9 @@ format_case(int func, const char *fmt, size_t flen, int vi, int bsz)
 		bad = 1;
 	}
 	if (n > room) {
-		snprintf(key, sizeof(key), "%s: return value exceeds the buffer size", fn);
+		char tok[32];
+		xt_label_last(tok, sizeof(tok));
+		snprintf(key, sizeof(key), "%s: return value exceeds the buffer size, last specifier %s", fn, tok);
 		report(key, (double)bsz, cas, *cmd ? cmd : NULL, "%s(buf, %d, \"%s\", %s) returned %zu", fn, bsz, fe, value_name(func, vi), n);
 		bad = 1;
 	}
@@ -581,7 +628,7 @@ format_tail_case(int func, const char *fmt, size_t flen, int vi)
 {
 	EX_CTR(c_eval, "evaluations");
 	EX_CTR(c_cases, "formatter_tail_cases");
-	char key[256], cas[128], cmd[256], fe[64], fh[64], o1[64], o2[64], e1[200], e2[200];
+	char key[256], cas[128], cmd[256], fe[64], fh[64], o1[64], o2[64], e1[200], e2[200], tok[32];
 	const char *fn = formatter_name[func];
 	const char *pf;
 	size_t n1 = 0, n2 = 0;
@@ -592,16 +639,18 @@ format_tail_case(int func, const char *fmt, size_t flen, int vi)
 		return 0;
 	}
 	++*c_cases;
-	xt_fmt_lo = xt_fmt_hi = NULL;
 	xa_open(&xa_out, 64);
 	memset(xa_out.p, 0, 64);
 	pf = xa_place_fill(&xa_fmt, fmt, flen + 1, FILL_FMT_A, sizeof(FILL_FMT_A));
+	xt_fmt_lo = pf;
+	xt_fmt_hi = pf + flen + 1;
+	xt_fp = xt_ep = xt_in_fp = xt_in_ep = NULL;
 	XG_BEGIN(rc) {
 		n1 = call_formatter(func, (char*)xa_out.p, BSZ_MAX, pf, vi);
 	} XG_END;
 	if (rc) {
 		(void)xa_check(&xa_out, 64, &where);
-		return 1;
+		return xg_must_restart();
 	}
 	if (n1 > 63) {
 		n1 = 63;
@@ -614,7 +663,7 @@ format_tail_case(int func, const char *fmt, size_t flen, int vi)
 	} XG_END;
 	if (rc) {
 		(void)xa_check(&xa_out, 64, &where);
-		return 1;
+		return xg_must_restart();
 	}
 	if (n2 > 63) {
 		n2 = 63;
@@ -630,7 +679,8 @@ format_tail_case(int func, const char *fmt, size_t flen, int vi)
 		if (func == F_DT && xe_printable(fmt, flen) && vi == 1) {
 			snprintf(cmd, sizeof(cmd), "dconv -f '%s' 2012-03-04T12:34:56", fmt);
 		}
-		snprintf(key, sizeof(key), "%s: output depends on the bytes behind the format's terminator", fn);
+		xt_label_last(tok, sizeof(tok));
+		snprintf(key, sizeof(key), "%s: output depends on the bytes behind the format's terminator, last specifier %s", fn, tok);
 		report(key, (double)flen, cas, *cmd ? cmd : NULL, "%s(buf, 40, \"%s\", %s) prints \"%s\" when '%%Y-%%m-%%d...' follows the terminator and \"%s\" when control bytes follow",
 		       fn, fe, value_name(func, vi), xe_esc(o1, n1, e1, sizeof(e1)), xe_esc(o2, n2, e2, sizeof(e2)));
 	}
